@@ -168,7 +168,7 @@ structure ActRel (B : Blk) (cfg : Config) (t : Int) (s s' : State) : Prop where
   old : ∀ (i : Nat) (r : Row), s.rows[i]? = some r → ∃ r', s'.rows[i]? = some r' ∧ Evolves t r r'
   new : ∀ (i : Nat) (r' : Row), s'.rows[i]? = some r' → s.rows.length ≤ i → Fresh B cfg s i r'
 
-theorem ActRel.rfl' (B : Blk) (cfg : Config) (t : Int) (s : State) : ActRel B cfg t s s :=
+theorem ActRel.same (B : Blk) (cfg : Config) (t : Int) (s : State) : ActRel B cfg t s s :=
   ⟨rfl, fun _ r h => ⟨r, h, Or.inl rfl⟩, fun i r' h hi => by rw [List.getElem?_eq_none hi] at h; cases h⟩
 
 theorem lt_of_getElem? {α : Type} {l : List α} {i : Nat} {a : α} (h : l[i]? = some a) : i < l.length := by
@@ -207,8 +207,8 @@ theorem births_rel (B : Blk) (cfg : Config) (t : Int) (ph : Nat) (s s' : State)
   split at h
   · split at h
     · exact create_rel B cfg t _ _ s s' h
-    · cases h; exact ActRel.rfl' B cfg t s
-  · cases h; exact ActRel.rfl' B cfg t s
+    · cases h; exact ActRel.same B cfg t s
+  · cases h; exact ActRel.same B cfg t s
 
 /-- `WMort.act`: nobody is added or removed; a tracked simulant may be untracked with `exit = event.time`;
 the index map is untouched -/
@@ -218,7 +218,7 @@ theorem mort_rel (B : Blk) (cfg : Config) (evIdx : List Nat) (evTime : Int) (s s
   unfold mort at h
   simp only at h
   split at h
-  · cases h; exact ⟨ActRel.rfl' B cfg _ s, rfl, rfl⟩
+  · cases h; exact ⟨ActRel.same B cfg _ s, rfl, rfl⟩
   · split at h
     · cases h
     · cases h
@@ -254,7 +254,7 @@ theorem disease_rel (B : Blk) (cfg : Config) (t : Int) (evIdx : List Nat) (s s' 
   unfold disease at h
   simp only at h
   split at h
-  · cases h; exact ⟨ActRel.rfl' B cfg _ s, rfl, rfl⟩
+  · cases h; exact ⟨ActRel.same B cfg _ s, rfl, rfl⟩
   · split at h
     · cases h
     · split at h
@@ -784,5 +784,34 @@ theorem exit_is_event_time (B : Blk) (cfg : Config) (s s' : State) (h : stepWhol
   rcases h1 i r' hr' hu with h | h
   · exact Or.inl h
   · right; rw [h]; show _ = some (s1.clock + cfg.step); rw [hc1]
+
+/-! ### the hypotheses are inhabited (a kernel-cheap toy block; the real block is exercised by the driver) -/
+
+def cfgEx : Config :=
+  { seed := "3", pop := 2, mapSize := 23, start := 0, step := 1, stop := 2, keyCols := [0, 1], keyBits := 30,
+    keyFloat := false, sexW := 8, births := [[0, 1, 0, 0], [0, 0, 0, 0]], akPerPhase := true, order := [0, 1, 2],
+    birthPrio := [5, 5, 5, 5], mortPhase := 1, mortPrio := 5, disPhase := 1, disPrio := 5,
+    mortP := [[8, 8], [8, 8]], initW := [[16, 0], [8, 8]],
+    states := [⟨true, [(1, [8, 8])]⟩, ⟨true, []⟩] }
+
+def toyB : Blk := fun ks size =>
+  ((List.range size).map fun i => ((ks.length + 3) * (i + 1) * 2654435761 * 1048583) % 2 ^ 53).toArray
+
+example : cfgEx.valid = true := by decide
+
+set_option maxRecDepth 100000 in
+/-- two steps of a run with a birth (label 2, entrance 0), a machine move (simulant 0) and two exits – one of them
+the newborn, one step after its birth -/
+example : ((initPopB toyB cfgEx).bind (iterWhole toyB cfgEx 2)).toOption.map (fun s => (s.clock, s.rows)) =
+    some (2, [⟨0, true, 447167675, -1, 0, 1, none⟩, ⟨1, false, 894335351, -1, 1, 1, some 1⟩,
+              ⟨2, false, 193682759, 0, 1, 0, some 2⟩]) := by decide +kernel
+
+set_option maxRecDepth 100000 in
+/-- `run()` on the same configuration: the same state -/
+example : (initPopB toyB cfgEx).bind (runWholeB toyB cfgEx 8) = (initPopB toyB cfgEx).bind (iterWhole toyB cfgEx 2) := by
+  decide +kernel
+
+/-- a refused run: `entrance` as the only key column and two simulants created together -/
+example : initPopB toyB { cfgEx with keyCols := [0] } = .error .randomness := by decide
 
 end Viv.Props.Whole
